@@ -886,3 +886,533 @@ Proof.
       * injection Hn' as <-. exact E.
       * eapply Hfirst; [|exact Hn']. lia.
 Qed.
+
+(* ================================================================== containment *)
+Lemma prune_obj kvs : prune (JObj kvs) = JObj (prune_kvs kvs).
+Proof.
+  reflexivity.
+Qed.
+
+Lemma prune_arr l : prune (JArr l) = JArr (map prune l).
+Proof. reflexivity. Qed.
+
+Lemma prune_kvs_In k px kvs :
+  In (k, px) (prune_kvs kvs) -> exists j, In (k, j) kvs /\ px = prune j /\ is_empty (prune j) = false.
+Proof.
+  induction kvs as [|[k' x] r IH]; cbn [prune_kvs]; [intros []|].
+  destruct (is_empty (prune x)) eqn:E.
+  - intros H. destruct (IH H) as (j & A & B & C). exists j. split; [right; exact A | auto].
+  - intros [H|H].
+    + injection H as <- <-. exists x. split; [left; reflexivity | auto].
+    + destruct (IH H) as (j & A & B & C). exists j. split; [right; exact A | auto].
+Qed.
+
+Lemma assoc_prune_kvs k m y :
+  assoc k m = Some y -> is_empty (prune y) = false -> assoc k (prune_kvs m) = Some (prune y).
+Proof.
+  induction m as [|[k' x] r IH]; cbn [assoc prune_kvs]; [discriminate|].
+  destruct (ustr_eqb k k') eqn:E.
+  - intros H Hy. injection H as ->. rewrite Hy. cbn [assoc]. rewrite E. reflexivity.
+  - intros H Hy. destruct (is_empty (prune x)); [exact (IH H Hy)|]. cbn [assoc]. rewrite E. exact (IH H Hy).
+Qed.
+
+Lemma contained_nonempty a b : contained a b -> is_empty a = false -> is_empty b = false.
+Proof.
+  intros H. destruct H as [a|a b Hs He|l m F|kvs kvs' Hk]; intros Ha.
+  - exact Ha.
+  - destruct a; try discriminate Hs; destruct b as [| | | | |l|l]; try reflexivity; try discriminate He;
+      try discriminate Ha; destruct l; reflexivity || discriminate He.
+  - destruct F; [discriminate Ha | reflexivity].
+  - destruct kvs as [|[k x] r]; [discriminate Ha|].
+    destruct (Hk k x (or_introl eq_refl)) as (y & Hy & _). destruct kvs'; [discriminate Hy | reflexivity].
+Qed.
+
+Lemma nodup_keys_assoc {X} k (j : X) kvs : nodup_keys kvs = true -> In (k, j) kvs -> assoc k kvs = Some j.
+Proof.
+  induction kvs as [|[k' x] r IH]; cbn [nodup_keys assoc]; [intros _ []|].
+  intros H Hin. apply andb_true_iff in H as [H1 H2]. apply negb_true_iff in H1.
+  destruct Hin as [E|Hin].
+  - injection E as <- <-. rewrite ustr_eqb_refl. reflexivity.
+  - destruct (ustr_eqb k k') eqn:E; [|exact (IH H2 Hin)].
+    apply ustr_eqb_eq in E. subst k'. apply In_assoc in Hin. apply has_key_false in H1.
+    destruct Hin as [y Hy]. congruence.
+Qed.
+
+Lemma find_prop_spec k ps p : find_prop k ps = Some p -> In p ps /\ wire_name p = Some k.
+Proof.
+  induction ps as [|q ps IH]; cbn [find_prop]; [discriminate|].
+  destruct (wire_name q) as [w|] eqn:Ew.
+  - destruct (ustr_eqb k w) eqn:E.
+    + intros H. injection H as <-. apply ustr_eqb_eq in E. subst w. split; [left; reflexivity | exact Ew].
+    + intros H. destruct (IH H). split; [right|]; assumption.
+  - intros H. destruct (IH H). split; [right|]; assumption.
+Qed.
+
+Lemma wire_in p ps k : In p ps -> wire_name p = Some k -> mem_ustr k (wire_names ps) = true.
+Proof.
+  induction ps as [|q ps IH]; [intros []|]. intros [->|Hin] Hw.
+  - rewrite (wire_names_cons _ _ _ Hw). apply mem_ustr_In. left. reflexivity.
+  - apply mem_ustr_In. destruct (wire_name q) as [w|] eqn:Ew.
+    + rewrite (wire_names_cons _ _ _ Ew). right. apply mem_ustr_In. exact (IH Hin Hw).
+    + unfold wire_names. cbn. rewrite Ew. apply mem_ustr_In. exact (IH Hin Hw).
+Qed.
+
+Lemma name_in p ps : In p ps -> mem_ustr (p_name p) (map p_name ps) = true.
+Proof. intros H. apply mem_ustr_In. apply in_map. exact H. Qed.
+
+(* member values by field identifier *)
+Lemma de_named_assoc T dr df ps kvs fs :
+  forallb no_flatten ps = true -> nodup_ustr (map p_name ps) = true ->
+  de_named T dr df ps kvs = Some fs ->
+  forall p, In p ps -> exists k x, wire_name p = Some k /\ assoc (p_name p) fs = Some x /\
+    match assoc k kvs with Some j => dr (p_ty p) j | None => missing T dr df p end = Some x.
+Proof.
+  revert fs. induction ps as [|q ps IH]; intros fs Hnf Hn H p Hp; [destruct Hp|].
+  cbn [forallb] in Hnf. apply andb_true_iff in Hnf as [Hq Hnf].
+  cbn [map nodup_ustr] in Hn. apply andb_true_iff in Hn as [Hn1 Hn2]. apply negb_true_iff in Hn1.
+  destruct (no_flatten_wire _ Hq) as [w Ew]. cbn [de_named] in H. rewrite Ew in H.
+  destruct (match assoc w kvs with Some j => dr (p_ty q) j | None => missing T dr df q end) as [x|] eqn:Ex;
+    [|discriminate].
+  destruct (de_named T dr df ps kvs) as [xs|] eqn:Er; [|discriminate]. injection H as <-.
+  destruct Hp as [<-|Hp].
+  - exists w, x. cbn [assoc]. rewrite ustr_eqb_refl. auto.
+  - destruct (IH xs Hnf Hn2 eq_refl p Hp) as (k & y & A & B & C). exists k, y. split; [exact A|]. split; [|exact C].
+    cbn [assoc]. destruct (ustr_eqb (p_name p) (p_name q)) eqn:E; [|exact B].
+    apply ustr_eqb_eq in E. rewrite <- E, (name_in p ps Hp) in Hn1. discriminate.
+Qed.
+
+Lemma ser_fields_assoc T sr ps fs m :
+  forallb no_flatten ps = true -> nodup_ustr (wire_names ps) = true ->
+  ser_fields T sr ps fs = Some m ->
+  forall p, In p ps -> exists x, assoc (p_name p) fs = Some x /\
+    (skip_if T p x = true \/
+     exists k wj, wire_name p = Some k /\ sr (p_ty p) x = Some wj /\ assoc k m = Some wj).
+Proof.
+  revert m. induction ps as [|q ps IH]; intros m Hnf Hw H p Hp; [destruct Hp|].
+  cbn [forallb] in Hnf. apply andb_true_iff in Hnf as [Hq Hnf].
+  destruct (no_flatten_wire _ Hq) as [w Ew]. rewrite (wire_names_cons _ _ _ Ew) in Hw.
+  cbn [nodup_ustr] in Hw. apply andb_true_iff in Hw as [Hw1 Hw2]. apply negb_true_iff in Hw1.
+  cbn [ser_fields] in H. destruct (assoc (p_name q) fs) as [x|] eqn:Ex; [|discriminate].
+  destruct (ser_fields T sr ps fs) as [rest|] eqn:Er; [|discriminate].
+  assert (H' : (if skip_if T q x then Some rest
+                else match sr (p_ty q) x with Some j => Some ((w, j) :: rest) | None => None end) = Some m).
+  { rewrite Ew in H. destruct (no_flatten_cases _ Hq) as [E|[s E]]; rewrite E in H; exact H. }
+  clear H. destruct Hp as [<-|Hp].
+  - exists x. split; [exact Ex|]. destruct (skip_if T q x); [left; reflexivity|].
+    destruct (sr (p_ty q) x) as [j|]; [|discriminate]. injection H' as <-. right. exists w, j.
+    cbn [assoc]. rewrite ustr_eqb_refl. auto.
+  - destruct (IH rest Hnf Hw2 eq_refl p Hp) as (y & A & B). exists y. split; [exact A|].
+    destruct B as [B|(k & wj & B1 & B2 & B3)]; [left; exact B|]. right. exists k, wj. split; [exact B1|]. split; [exact B2|].
+    destruct (skip_if T q x); [injection H' as <-; exact B3|].
+    destruct (sr (p_ty q) x) as [j|]; [|discriminate]. injection H' as <-.
+    cbn [assoc]. destruct (ustr_eqb k w) eqn:E; [|exact B3].
+    apply ustr_eqb_eq in E. subst k. rewrite (wire_in p ps w Hp B1) in Hw1. discriminate.
+Qed.
+
+Lemma Forall2_map {X Y} (R : X -> Y -> Prop) (g : X -> X) (h : Y -> Y) l m :
+  Forall2 (fun a b => R (g a) (h b)) l m -> Forall2 R (map g l) (map h m).
+Proof. intros F. induction F; cbn; constructor; auto. Qed.
+
+Lemma obj_contains kvs m :
+  (forall k j, In (k, j) kvs -> is_empty (prune j) = false ->
+     exists wj, assoc k m = Some wj /\ contained (prune j) (prune wj)) ->
+  contained (prune (JObj kvs)) (prune (JObj m)).
+Proof.
+  intros H. rewrite !prune_obj. apply C_obj. intros k px Hin.
+  destruct (prune_kvs_In _ _ _ Hin) as (j & A & -> & C). destruct (H k j A C) as (wj & B & D).
+  exists (prune wj). split; [|exact D]. apply assoc_prune_kvs; [exact B|]. eapply contained_nonempty; eauto.
+Qed.
+
+Lemma remove_key_In {X} tg k (j : X) kvs :
+  In (k, j) kvs -> ustr_eqb tg k = false -> In (k, j) (remove_key tg kvs).
+Proof.
+  induction kvs as [|[k' x] r IH]; cbn [remove_key]; [intros []|]. intros [E|Hin] Hne.
+  - injection E as -> ->. rewrite Hne. left. reflexivity.
+  - destruct (ustr_eqb tg k'); [|right]; apply IH; assumption.
+Qed.
+
+Lemma remove_key_nil {X} tg k (j : X) kvs :
+  length (remove_key tg kvs) = 0 -> In (k, j) kvs -> ustr_eqb tg k = true.
+Proof.
+  intros Hl Hin. destruct (ustr_eqb tg k) eqn:E; [reflexivity|].
+  pose proof (remove_key_In tg k j kvs Hin E) as H. destruct (remove_key tg kvs); [destruct H | discriminate Hl].
+Qed.
+
+Section Contains.
+  Variable re_match : ustring -> ustring -> bool.
+  Variable native_ok : ustring -> ustring -> bool.
+  Variable T : space.
+  Variable S0 : list id.
+  Hypothesis HS : rt_set T S0 = true.
+
+  Local Notation De := (Serde.de re_match native_ok T).
+  Local Notation Ser := (Serde.ser T).
+  Local Notation Dflt := (Serde.default_val T).
+  Local Notation Decl := (decl_only T).
+  Local Notation inS := (inS S0).
+
+  Definition Q (f : nat) : Prop :=
+    forall t v x w, inS t -> De f t v = Some x -> Decl f t v = true -> Ser (S f) t x = Some w ->
+      contained (prune v) (prune w).
+
+  (* a skipped value comes from null / [] / {} *)
+  Lemma de_empty f t d j x :
+    inS t -> get_det T t = Some d -> De f t j = Some x ->
+    match d, x with
+    | DOption _, ROptNone => j = JNull
+    | DVec _, RSeq [] => j = JArr []
+    | DMap _ _, RMap [] => j = JObj []
+    | _, _ => True
+    end.
+  Proof.
+    intros Ht Hd H. destruct (set_node T S0 HS t Ht) as (d' & Hd' & Hok & _).
+    rewrite Hd in Hd'. injection Hd' as <-.
+    destruct f as [|f]; [discriminate|]. rewrite de_S, Hd in H.
+    destruct d; try exact I.
+    - destruct x; try exact I. cbn [node_ok] in Hok.
+      destruct (json_eq_null j) as [->|Hj]; [reflexivity|].
+      rewrite (de_node_option_nonnull _ _ _ _ _ _ _ Hj Hok) in H. destruct (De f t0 j); discriminate.
+    - destruct x as [| | | | | | |l| | | | |]; try exact I. destruct l; [|exact I].
+      cbn [de_node] in H. destruct j; try discriminate. apply option_map_Some in H as (xs & Hxs & E).
+      injection E as <-. apply mapM_length in Hxs. destruct l; [reflexivity | discriminate].
+    - destruct x as [| | | | | | | |l| | | |]; try exact I. destruct l; [|exact I].
+      cbn [de_node] in H. destruct j; try discriminate. apply option_map_Some in H as (xs & Hxs & E).
+      injection E as <-. apply mapM_length in Hxs. destruct kvs; [reflexivity | discriminate].
+  Qed.
+
+  Lemma unbox_de f t j x d :
+    inS t -> unbox_det T t = Some d -> De f t j = Some x ->
+    exists t1 f1, inS t1 /\ get_det T t1 = Some d /\ (De f1 t1 j = Some x \/ d = DBox t1).
+  Proof.
+    intros Ht Hu H. destruct (set_node T S0 HS t Ht) as (d0 & Hd0 & _ & Hch).
+    unfold unbox_det in Hu. rewrite Hd0 in Hu.
+    destruct d0 as [? ? ? ? ? ?|? ? ? ?|? ? ? ?|? ? ?|?|b|?|? ?|?|? ?|?| | |?|?| | |?];
+      try (injection Hu as <-; exists t, f; auto).
+    destruct f as [|f]; [discriminate|]. rewrite de_S, Hd0 in H. cbn [de_node] in H.
+    assert (Hb : inS b) by (apply Hch; left; reflexivity).
+    destruct (set_node T S0 HS b Hb) as (db & Hdb & _). rewrite Hdb in Hu. injection Hu as <-.
+    exists b, f. auto.
+  Qed.
+
+  Lemma skip_empty f p x j :
+    inS (p_ty p) -> skip_if T p x = true -> De f (p_ty p) j = Some x -> is_empty (prune j) = true.
+  Proof.
+    intros Ht Hs H. destruct (skip_cases T p x Hs) as [_ Hc].
+    destruct Hc as [(t0 & Hu & ->)|[(t0 & Hu & ->)|(k & v & Hu & ->)]];
+      destruct (unbox_de _ _ _ _ _ Ht Hu H) as (t1 & f1 & A & B & [C|C]); try discriminate C;
+      pose proof (de_empty f1 t1 _ j _ A B C) as E; cbn in E; subst j; reflexivity.
+  Qed.
+
+  (* ---- lists *)
+  Lemma mapM_contains f t l xs ws :
+    Q f -> inS t -> mapM (De f t) l = Some xs -> forallb (Decl f t) l = true ->
+    mapM (Ser (S f) t) xs = Some ws -> Forall2 (fun a b => contained (prune a) (prune b)) l ws.
+  Proof.
+    intros HQ Ht. revert xs ws. induction l as [|j l IH]; intros xs ws H Hd Hs; cbn [mapM] in H.
+    - injection H as <-. cbn in Hs. injection Hs as <-. constructor.
+    - destruct (De f t j) as [x|] eqn:Ex; [|discriminate].
+      destruct (mapM (De f t) l) as [xs'|] eqn:Er; [|discriminate]. injection H as <-.
+      cbn [forallb] in Hd. apply andb_true_iff in Hd as [Hd1 Hd2]. cbn [mapM] in Hs.
+      destruct (Ser (S f) t x) as [w|] eqn:Ew; [|discriminate].
+      destruct (mapM (Ser (S f) t) xs') as [ws'|] eqn:Ews; [|discriminate]. injection Hs as <-.
+      constructor; [eapply HQ; eauto | eapply IH; eauto].
+  Qed.
+
+  Lemma zipM_contains f ts l xs ws :
+    Q f -> (forall c, In c ts -> inS c) -> zipM (De f) ts l = Some xs -> zip_all (Decl f) ts l = true ->
+    zipM (Ser (S f)) ts xs = Some ws -> Forall2 (fun a b => contained (prune a) (prune b)) l ws.
+  Proof.
+    intros HQ. revert l xs ws. induction ts as [|t ts IH]; intros l xs ws Hin H Hd Hs; destruct l as [|j l];
+      cbn [zipM] in H; try discriminate.
+    - injection H as <-. cbn in Hs. injection Hs as <-. constructor.
+    - destruct (De f t j) as [x|] eqn:Ex; [|discriminate].
+      destruct (zipM (De f) ts l) as [xs'|] eqn:Er; [|discriminate]. injection H as <-.
+      cbn [zip_all] in Hd. apply andb_true_iff in Hd as [Hd1 Hd2]. cbn [zipM] in Hs.
+      destruct (Ser (S f) t x) as [w|] eqn:Ew; [|discriminate].
+      destruct (zipM (Ser (S f)) ts xs') as [ws'|] eqn:Ews; [|discriminate]. injection Hs as <-.
+      constructor; [eapply HQ; eauto; apply Hin; left; reflexivity|].
+      eapply IH; eauto. intros c Hc. apply Hin. right. exact Hc.
+  Qed.
+
+  Lemma map_contains f k v kvs xs ws :
+    Q f -> inS v -> mapM (de_entry (De f) k v) kvs = Some xs ->
+    forallb (fun kv => Decl f v (snd kv)) kvs = true ->
+    mapM (ser_entry (Ser (S f)) v) xs = Some ws ->
+    forall key j, assoc key kvs = Some j ->
+      exists wj, assoc key ws = Some wj /\ contained (prune j) (prune wj).
+  Proof.
+    intros HQ Hv. revert xs ws. induction kvs as [|[k0 j0] kvs IH]; intros xs ws H Hd Hs key j Ha;
+      [discriminate Ha|].
+    cbn [mapM] in H. unfold de_entry at 1 in H. cbn [fst snd] in H.
+    destruct (de_key (De f) k k0); [|discriminate].
+    destruct (De f v j0) as [x|] eqn:Ex; [|discriminate].
+    destruct (mapM (de_entry (De f) k v) kvs) as [xs'|] eqn:Er; [|discriminate]. injection H as <-.
+    cbn [forallb snd] in Hd. apply andb_true_iff in Hd as [Hd1 Hd2].
+    cbn [mapM] in Hs. unfold ser_entry at 1 in Hs. cbn [fst snd] in Hs.
+    destruct (Ser (S f) v x) as [w|] eqn:Ew; [|discriminate]. cbn [option_map] in Hs.
+    destruct (mapM (ser_entry (Ser (S f)) v) xs') as [ws'|] eqn:Ews; [|discriminate]. injection Hs as <-.
+    cbn [assoc] in Ha |- *. destruct (ustr_eqb key k0).
+    - injection Ha as <-. exists w. split; [reflexivity|]. eapply HQ; eauto.
+    - eapply IH; eauto.
+  Qed.
+
+  (* ---- struct members *)
+  Lemma struct_members_contain f ps deny kvs fs m :
+    Q f -> props_ok ps = true -> props_in S0 ps ->
+    de_struct_body T (De f) (Dflt f) ps deny (JObj kvs) = Some (RStruct fs) ->
+    decl_members (Decl f) ps kvs = true ->
+    ser_fields T (Ser (S f)) ps fs = Some m ->
+    forall k j, In (k, j) kvs -> is_empty (prune j) = false ->
+      exists wj, assoc k m = Some wj /\ contained (prune j) (prune wj).
+  Proof.
+    intros HQ Hok Hin H Hdecl Hs k j Hkj Hne.
+    unfold props_ok in Hok. apply andb_true_iff in Hok as [Hok Hw]. apply andb_true_iff in Hok as [Hnf Hn].
+    unfold de_struct_body in H. apply option_map_Some in H as (fs' & Hfs & E). injection E as <-.
+    unfold de_struct_obj in Hfs.
+    destruct (de_named T (De f) (Dflt f) ps kvs) as [named|] eqn:En; [|discriminate].
+    rewrite (flat_props_nil _ Hnf) in Hfs. destruct (deny && _); [discriminate|]. injection Hfs as <-.
+    unfold decl_members in Hdecl. apply andb_true_iff in Hdecl as [Hnd Hall].
+    rewrite forallb_forall in Hall. specialize (Hall (k, j) Hkj). cbn [fst snd] in Hall.
+    destruct (find_prop k ps) as [p|] eqn:Ef; [|discriminate].
+    destruct (find_prop_spec _ _ _ Ef) as [Hp Hwp].
+    pose proof (nodup_keys_assoc k j kvs Hnd Hkj) as Ha.
+    destruct (de_named_assoc _ _ _ _ _ _ Hnf Hn En p Hp) as (k' & x & A & B & C).
+    rewrite Hwp in A. injection A as <-. rewrite Ha in C.
+    destruct (ser_fields_assoc _ _ _ _ _ Hnf Hw Hs p Hp) as (x' & B' & D).
+    rewrite B in B'. injection B' as <-.
+    destruct D as [D|(k' & wj & D1 & D2 & D3)].
+    - rewrite (skip_empty f p x j (Hin p Hp) D C) in Hne. discriminate.
+    - rewrite Hwp in D1. injection D1 as <-. exists wj. split; [exact D3|].
+      eapply HQ; eauto.
+  Qed.
+
+  (* ---- enum payloads *)
+  Lemma payload_contains f deny vd j px pw :
+    Q f -> vd_ok S0 vd ->
+    de_payload T (De f) (Dflt f) deny vd j = Some px ->
+    decl_payload (Decl f) vd j = true ->
+    ser_payload T (Ser (S f)) vd px = Some pw ->
+    contained (prune j) (prune pw).
+  Proof.
+    intros HQ Hok H Hd Hs. destruct vd as [|t|ts|ps]; cbn [de_payload decl_payload ser_payload] in *.
+    - discriminate Hd.
+    - eapply HQ; eauto.
+    - destruct j; try discriminate. apply option_map_Some in H as (xs & Hxs & ->).
+      apply option_map_Some in Hs as (ws & Hws & ->).
+      rewrite !prune_arr. apply C_arr. apply Forall2_map. eapply zipM_contains; eauto.
+    - destruct Hok as [Hok Hin]. unfold decl_struct in Hd. destruct j; try discriminate.
+      pose proof H as H'. unfold de_struct_body in H'. apply option_map_Some in H' as (fs & _ & ->).
+      apply option_map_Some in Hs as (m & Hm & ->).
+      apply obj_contains. eapply struct_members_contain; eauto.
+  Qed.
+
+  Lemma variant_ok n dv tag vs deny bes v :
+    node_ok T (DEnum n dv tag vs deny bes) = true ->
+    (forall c, In c (children (DEnum n dv tag vs deny bes)) -> inS c) -> In v vs ->
+    vd_ok S0 (v_det v).
+  Proof.
+    intros Hok Hch Hin. pose proof (variant_children S0 _ _ _ _ _ _ v Hch Hin) as Hc.
+    cbn [node_ok] in Hok. destruct tag as [|tg|tg ct|]; try discriminate.
+    - rewrite forallb_forall in Hok. specialize (Hok v Hin). unfold vd_ok.
+      revert Hc Hok. destruct (v_det v); intros Hc Hok; repeat split; auto.
+    - rewrite forallb_forall in Hok. specialize (Hok v Hin). unfold vd_ok.
+      revert Hc Hok. destruct (v_det v); intros Hc Hok; try discriminate Hok; repeat split; auto.
+      apply andb_true_iff in Hok as [A B]. exact A.
+    - apply andb_true_iff in Hok as [_ Hok]. rewrite forallb_forall in Hok. specialize (Hok v Hin).
+      unfold vd_ok. revert Hc Hok. destruct (v_det v); intros Hc Hok; repeat split; auto.
+  Qed.
+
+  Lemma enum_contains f n dv tag vs deny bes j x w :
+    Q f -> node_ok T (DEnum n dv tag vs deny bes) = true ->
+    (forall c, In c (children (DEnum n dv tag vs deny bes)) -> inS c) ->
+    de_enum T (De f) (Dflt f) tag vs deny j = Some x ->
+    decl_enum (Decl f) tag vs j = true ->
+    ser_enum T (Ser (S f)) tag vs x = Some w ->
+    contained (prune j) (prune w).
+  Proof.
+    intros HQ Hok Hch H Hd Hs.
+    pose proof (fun v => variant_ok _ _ _ _ _ _ v Hok Hch) as Hv.
+    destruct tag as [|tg|tg ct|]; [| | |discriminate Hd]; cbn [de_enum decl_enum] in H, Hd.
+    - (* external *)
+      destruct j as [| | | |s| |kvs]; try discriminate.
+      + destruct (find_variant s vs 0) as [[i v]|] eqn:Ef; [|discriminate].
+        destruct (find_variant_0 _ _ _ _ Ef) as (Hn & Hr & Hi). subst s.
+        destruct (v_det v) eqn:Ev; try discriminate. injection H as <-.
+        cbn [ser_enum] in Hs. rewrite Hn, Ev in Hs. injection Hs as <-. apply C_refl.
+      + destruct kvs as [|[k pj] [|]]; try discriminate.
+        destruct (find_variant k vs 0) as [[i v]|] eqn:Ef; [|discriminate].
+        destruct (find_variant_0 _ _ _ _ Ef) as (Hn & Hr & Hi). subst k.
+        apply option_map_Some in H as (px & Hpx & ->).
+        cbn [ser_enum] in Hs. rewrite Hn in Hs.
+        assert (Hpw : exists pw, ser_payload T (Ser (S f)) (v_det v) px = Some pw /\ w = JObj [(v_raw v, pw)]).
+        { destruct (v_det v) eqn:Ev; [discriminate Hd| | |];
+            apply option_map_Some in Hs as (pw & Hpw & ->); eauto. }
+        destruct Hpw as (pw & Hpw & ->).
+        pose proof (payload_contains f deny _ pj px pw HQ (Hv v Hi) Hpx Hd Hpw) as Hc.
+        apply obj_contains. intros k j [E|[]] Hne. injection E as <- <-.
+        exists pw. cbn [assoc]. rewrite ustr_eqb_refl. auto.
+    - (* internal *)
+      destruct j as [| | | | | |kvs]; try discriminate.
+      apply andb_true_iff in Hd as [Hnd Hd].
+      destruct (assoc tg kvs) as [[| | | |s| |]|] eqn:Ea; try discriminate.
+      destruct (find_variant s vs 0) as [[i v]|] eqn:Ef; [|discriminate].
+      destruct (find_variant_0 _ _ _ _ Ef) as (Hn & Hr & Hi). subst s.
+      pose proof (Hv v Hi) as Hvd.
+      destruct (v_det v) eqn:Ev; try discriminate.
+      + injection H as <-. cbn [ser_enum] in Hs. rewrite Hn, Ev in Hs. injection Hs as <-.
+        apply Nat.eqb_eq in Hd. apply obj_contains. intros k j Hkj Hne.
+        pose proof (remove_key_nil tg k j kvs Hd Hkj) as E. apply ustr_eqb_eq in E. subst k.
+        rewrite (nodup_keys_assoc _ _ _ Hnd Hkj) in Ea. injection Ea as ->.
+        exists (JStr (v_raw v)). cbn [assoc]. rewrite ustr_eqb_refl. split; [reflexivity | apply C_refl].
+      + apply option_map_Some in H as (px & Hpx & ->). cbn [ser_enum] in Hs. rewrite Hn, Ev in Hs.
+        pose proof Hpx as H'. unfold de_struct_body in H'. apply option_map_Some in H' as (fs & _ & ->).
+        cbn [ser_payload] in Hs. destruct (ser_fields T (Ser (S f)) ps fs) as [m|] eqn:Em; [|discriminate].
+        cbn [option_map] in Hs. injection Hs as <-. destruct Hvd as [Hpo Hpi].
+        apply obj_contains. intros k j Hkj Hne.
+        destruct (ustr_eqb tg k) eqn:E.
+        * apply ustr_eqb_eq in E. subst k. rewrite (nodup_keys_assoc _ _ _ Hnd Hkj) in Ea. injection Ea as ->.
+          exists (JStr (v_raw v)). cbn [assoc]. rewrite ustr_eqb_refl. split; [reflexivity | apply C_refl].
+        * destruct (struct_members_contain f ps deny _ fs m HQ Hpo Hpi Hpx Hd Em k j
+                      (remove_key_In tg k j kvs Hkj E) Hne) as (wj & A & B).
+          exists wj. cbn [assoc]. rewrite ustr_eqb_sym, E. auto.
+    - (* adjacent *)
+      cbn [node_ok] in Hok. apply andb_true_iff in Hok as [Hne _]. apply negb_true_iff in Hne.
+      assert (Hne' : ustr_eqb ct tg = false) by (rewrite ustr_eqb_sym; exact Hne).
+      destruct j as [| | | | | |kvs]; try discriminate.
+      apply andb_true_iff in Hd as [Hd0 Hd]. apply andb_true_iff in Hd0 as [Hnd Hoth]. apply Nat.eqb_eq in Hoth.
+      destruct (assoc tg kvs) as [[| | | |s| |]|] eqn:Ea; try discriminate.
+      destruct (find_variant s vs 0) as [[i v]|] eqn:Ef; [|discriminate].
+      destruct (find_variant_0 _ _ _ _ Ef) as (Hn & Hr & Hi). subst s.
+      destruct (deny && _); [discriminate|].
+      pose proof (Hv v Hi) as Hvd.
+      assert (Hkeys : forall k j, In (k, j) kvs -> k = tg \/ k = ct).
+      { intros k j Hkj. destruct (ustr_eqb tg k) eqn:E; [left; apply ustr_eqb_eq in E; auto|].
+        right. pose proof (remove_key_In tg k j kvs Hkj E) as Hin'.
+        pose proof (remove_key_nil ct k j _ Hoth Hin') as E'. apply ustr_eqb_eq in E'. auto. }
+      destruct (assoc ct kvs) as [pj|] eqn:Ec.
+      + apply option_map_Some in H as (px & Hpx & ->). cbn [ser_enum] in Hs. rewrite Hn in Hs.
+        assert (Hpw : exists pw, ser_payload T (Ser (S f)) (v_det v) px = Some pw /\
+                                 w = JObj [(tg, JStr (v_raw v)); (ct, pw)]).
+        { destruct (v_det v) eqn:Ev; [discriminate Hd| | |];
+            apply option_map_Some in Hs as (pw & Hpw & ->); eauto. }
+        destruct Hpw as (pw & Hpw & ->).
+        pose proof (payload_contains f deny _ pj px pw HQ Hvd Hpx Hd Hpw) as Hc.
+        apply obj_contains. intros k j Hkj Hnej.
+        pose proof (nodup_keys_assoc _ _ _ Hnd Hkj) as Hak.
+        destruct (Hkeys k j Hkj) as [->| ->].
+        * rewrite Hak in Ea. injection Ea as ->. exists (JStr (v_raw v)). cbn [assoc].
+          rewrite ustr_eqb_refl. split; [reflexivity | apply C_refl].
+        * rewrite Hak in Ec. injection Ec as ->. exists pw. cbn [assoc].
+          rewrite Hne', ustr_eqb_refl. auto.
+      + destruct (v_det v) eqn:Ev; try discriminate. injection H as <-.
+        cbn [ser_enum] in Hs. rewrite Hn, Ev in Hs. injection Hs as <-.
+        apply obj_contains. intros k j Hkj Hnej.
+        pose proof (nodup_keys_assoc _ _ _ Hnd Hkj) as Hak.
+        destruct (Hkeys k j Hkj) as [->| ->]; [|congruence].
+        rewrite Hak in Ea. injection Ea as ->. exists (JStr (v_raw v)). cbn [assoc].
+        rewrite ustr_eqb_refl. split; [reflexivity | apply C_refl].
+  Qed.
+
+  (* ---- the containment theorem *)
+  Theorem contains_core : forall f, Q f.
+  Proof.
+    induction f as [|f IH]; intros t v x w Ht H Hdecl Hs; [discriminate|].
+    destruct (set_node T S0 HS t Ht) as (d & Hd & Hok & Hch).
+    rewrite de_S, Hd in H. rewrite ser_S, Hd in Hs. cbn [decl_only] in Hdecl. rewrite Hd in Hdecl.
+    destruct d.
+    - (* Enum *) cbn [de_node] in H. cbn [ser_node] in Hs. eapply enum_contains; eauto.
+    - (* Struct *)
+      cbn [de_node] in H. cbn [node_ok] in Hok. unfold decl_struct in Hdecl. destruct v; try discriminate.
+      assert (Hin : props_in S0 props) by (intros p Hp; apply Hch; cbn [children]; apply in_map; exact Hp).
+      pose proof H as H'. unfold de_struct_body in H'. apply option_map_Some in H' as (fs & _ & ->).
+      cbn [ser_node] in Hs. apply option_map_Some in Hs as (m & Hm & ->).
+      apply obj_contains. eapply struct_members_contain; eauto.
+    - (* Newtype *)
+      assert (Hi : inS inner) by (apply Hch; left; reflexivity).
+      cbn [de_node] in H. destruct c as [|vs|vs|mx mn pat]; cbn [ser_node] in Hs.
+      + eapply IH; eauto.
+      + destruct (De f inner v) as [x'|] eqn:Ex; [|discriminate].
+        destruct (existsb (json_equiv v) vs); [|discriminate]. injection H as <-.
+        destruct (scalar_exact _ _ _ _ _ _ _ Hok Ex (S f)) as [A _]; [lia|].
+        rewrite A in Hs. injection Hs as <-. apply C_refl.
+      + destruct (De f inner v) as [x'|] eqn:Ex; [|discriminate].
+        destruct (existsb (json_equiv v) vs); [discriminate|]. injection H as <-.
+        destruct (scalar_exact _ _ _ _ _ _ _ Hok Ex (S f)) as [A _]; [lia|].
+        rewrite A in Hs. injection Hs as <-. apply C_refl.
+      + destruct v; try discriminate. destruct (str_constraints_ok re_match mx mn pat s); [|discriminate].
+        injection H as <-. injection Hs as <-. apply C_refl.
+    - (* Native *)
+      cbn [de_node] in H. destruct v; try discriminate. destruct (native_ok type_name s); [|discriminate].
+      injection H as <-. cbn [ser_node] in Hs. injection Hs as <-. apply C_refl.
+    - (* Option *)
+      cbn [node_ok] in Hok. assert (Hi : inS t0) by (apply Hch; left; reflexivity).
+      rewrite ser_node_option in Hs by exact Hok.
+      destruct (json_eq_null v) as [->|Hv].
+      + cbn [de_node] in H. injection H as <-. injection Hs as <-. apply C_refl.
+      + rewrite (de_node_option_nonnull _ _ _ _ _ _ _ Hv Hok) in H.
+        apply option_map_Some in H as (y & Hy & ->).
+        assert (Hdecl' : Decl f t0 v = true) by (destruct v; try congruence; exact Hdecl).
+        eapply IH; eauto.
+    - (* Box *)
+      cbn [de_node] in H. cbn [ser_node] in Hs.
+      exact (IH t0 v x w (Hch t0 (or_introl eq_refl)) H Hdecl Hs).
+    - (* Vec *)
+      assert (Hi : inS t0) by (apply Hch; left; reflexivity).
+      cbn [de_node] in H. destruct v; try discriminate. apply option_map_Some in H as (xs & Hxs & ->).
+      cbn [ser_node] in Hs. apply option_map_Some in Hs as (ws & Hws & ->).
+      rewrite !prune_arr. apply C_arr. apply Forall2_map. eapply mapM_contains; eauto.
+    - (* Map *)
+      cbn [node_ok] in Hok. assert (Hi : inS v0) by (apply Hch; right; left; reflexivity).
+      cbn [de_node] in H. destruct v; try discriminate. apply option_map_Some in H as (xs & Hxs & ->).
+      cbn [ser_node] in Hs. apply option_map_Some in Hs as (ws & Hws & ->).
+      apply andb_true_iff in Hdecl as [Hnd Hall].
+      change (mapM (de_entry (De f) k v0) kvs = Some xs) in Hxs.
+      change (mapM (ser_entry (Ser (S f)) v0) xs = Some ws) in Hws.
+      apply obj_contains. intros key j Hkj _.
+      exact (map_contains f k v0 kvs xs ws IH Hi Hxs Hall Hws key j (nodup_keys_assoc _ _ _ Hnd Hkj)).
+    - (* Set *)
+      assert (Hi : inS t0) by (apply Hch; left; reflexivity).
+      cbn [de_node] in H. destruct v; try discriminate. apply option_map_Some in H as (xs & Hxs & ->).
+      cbn [ser_node] in Hs. apply option_map_Some in Hs as (ws & Hws & ->).
+      rewrite !prune_arr. apply C_arr. apply Forall2_map. eapply mapM_contains; eauto.
+    - (* Array *)
+      assert (Hi : inS t0) by (apply Hch; left; reflexivity).
+      cbn [de_node] in H. destruct v; try discriminate.
+      destruct (N.eqb (N.of_nat (length l)) n); [|discriminate].
+      apply option_map_Some in H as (xs & Hxs & ->).
+      cbn [ser_node] in Hs. apply option_map_Some in Hs as (ws & Hws & ->).
+      rewrite !prune_arr. apply C_arr. apply Forall2_map. eapply mapM_contains; eauto.
+    - (* Tuple *)
+      cbn [de_node] in H. destruct v; try discriminate. apply option_map_Some in H as (xs & Hxs & ->).
+      cbn [ser_node] in Hs. apply option_map_Some in Hs as (ws & Hws & ->).
+      rewrite !prune_arr. apply C_arr. apply Forall2_map. eapply zipM_contains; eauto.
+    - (* Unit *)
+      cbn [de_node] in H. destruct v; try discriminate. injection H as <-. injection Hs as <-. apply C_refl.
+    - (* Boolean *)
+      cbn [de_node] in H. destruct v; try discriminate. injection H as <-. injection Hs as <-. apply C_refl.
+    - (* Integer *)
+      cbn [de_node] in H. destruct v; try discriminate. destruct (in_int_range name z); [|discriminate].
+      injection H as <-. injection Hs as <-. apply C_refl.
+    - (* Float *)
+      cbn [de_node] in H. destruct v; try discriminate; injection H as <-; injection Hs as <-.
+      + apply C_scalar; [reflexivity|]. cbn. apply Qeq_bool_iff. reflexivity.
+      + apply C_refl.
+    - (* String *)
+      cbn [de_node] in H. destruct v; try discriminate. injection H as <-. injection Hs as <-. apply C_refl.
+    - (* JsonValue *)
+      cbn [de_node] in H. injection H as <-. injection Hs as <-. apply C_refl.
+    - (* Reference *) discriminate.
+  Qed.
+End Contains.
+
+Theorem rt_contains re nat T t :
+  rt_simple T t = true ->
+  forall f v x, de re nat T f t v = Some x -> decl_only T f t v = true ->
+  forall g w, f < g -> ser T g t x = Some w -> contained (prune v) (prune w).
+Proof.
+  intros H f v x Hd Hdecl g w Hg Hs. destruct (rt_simple_set T t H) as (S0 & HS & Ht).
+  destruct (rt_core re nat T S0 HS f t v x Ht Hd) as (w0 & Hw & _).
+  destruct (Hw g Hg) as [A _]. rewrite A in Hs. injection Hs as <-.
+  destruct (Hw (S f) (Nat.lt_succ_diag_r f)) as [B _].
+  exact (contains_core re nat T S0 HS f t v x w0 Ht Hd Hdecl B).
+Qed.
